@@ -144,10 +144,14 @@ Padded(a, f) ==
 \* does the data of the row fit the PDB field widths at all?
 FitsWidths(a) == \A f \in AtomFields : Len(FieldText(a, f)) <= Width(AtomLayout, f)
 
-FieldAt(i) == CHOOSE f \in AtomFields : AtomLayout[f][1] <= i /\ i <= AtomLayout[f][2]
-FormatAtom(a) ==
-  [i \in 1..LineWidth |->
-     IF i \in AtomGapCols THEN Sp ELSE Padded(a, FieldAt(i))[i - AtomLayout[FieldAt(i)][1] + 1]]
+\* the line is assembled from the layout table: blanks up to the field's first column, the padded
+\* field, and so on in column order; blanks up to column 80
+RECURSIVE BuildLine(_, _, _)
+BuildLine(a, k, col) ==
+  IF k > Len(AtomFieldSeq) THEN Blanks(LineWidth - col + 1)
+  ELSE LET f == AtomFieldSeq[k] IN
+       Blanks(AtomLayout[f][1] - col) \o Padded(a, f) \o BuildLine(a, k + 1, AtomLayout[f][2] + 1)
+FormatAtom(a) == BuildLine(a, 1, 1)
 
 FormatTer(serial, a) ==
   LJust(<<"T","E","R">> \o Blanks(3) \o RJust(IntText(serial), 5) \o Blanks(6) \o RJust(a.resn, 3) \o <<Sp>>
@@ -279,7 +283,8 @@ ChargePal  == << 0, 1, -2, 2, -1 >>
 AltPal     == << <<>>, <<"A">>, <<"B">> >>
 ICodePal   == << <<>>, <<"A">>, <<"Z">> >>
 ResNumPal  == << -12, -1, 0, 1, 42, 999, 1000, 9999 >>
-ResNamePal == << <<"A">>, <<"G">>, <<"D","C">>, <<"P","S","U">>, <<"M","G">>, <<"H","O","H">>, <<"5","M","C">> >>
+ResNamePal == << <<"A">>, <<"G">>, <<"D","C">>, <<"P","S","U">>, <<"M","G">>, <<"H","O","H">>, <<"5","M","C">>,
+                <<"F","E">>, <<"Z","N">>, <<"N","A">> >>
 ChainPal   == << <<"A">>, <<"B">>, <<"C">>, <<"a">>, <<"1">>, <<"Z">> >>
 RecPal     == << KwATOM, KwHETATM >>
 CoordPal   == << -999999, -1, 0, 1, 12345, 999999, 9999999 >>    \* milli-units; 8.3f holds -999.999 .. 9999.999
